@@ -648,6 +648,12 @@ func (l *lexer) lexToken(tok int) action {
 		}
 	case ')', RAE:
 		if l.cmdSubst != 0 && len(l.stack) == 1 {
+			if l.heredoc.exists() {
+				// end of the command substitution before the
+				// here-documents of its last line
+				l.error(l.pos, "syntax error: here-document delimited by EOF")
+				return nil
+			}
 			l.emit(tok)
 			l.stack = nil
 			break
